@@ -4,6 +4,7 @@ CONSTANTS
   Combos <- AllCombos
   ClsSet <- Classes
   OrderSet <- BothOrders
+  PreSet <- AllPre
 INIT Init
 NEXT Next
 INVARIANT Export
